@@ -6,7 +6,10 @@ from .runner import scenario, sim_case
 from .workloads import pick_chunks
 
 ALPHA = ["", "a", "A", "b", "ab", "AB", "aB", "abc", "ABC", "abcd", "bc", "BC", "c", "a/b", "A/B", "a/b/c", "/", "a/", "/a", "//",
-         "ä", "Ä", "äb", "aä", "é", "€", "a€b", "z", "Z", "zz", "aa", "aA", "Aa", "aab", "baa", "aba", "a b", " ", "0", "abcdefghij"]
+         "ä", "Ä", "äb", "aä", "é", "€", "a€b", "z", "Z", "zz", "aa", "aA", "Aa", "aab", "baa", "aba", "a b", " ", "0", "abcdefghij",
+         # the bytes next to the letter blocks, in pairs that differ by 0x20 exactly like a letter and its other case do:
+         # only A-Z / a-z may be folded
+         "@", "`", "[", "{", "a[b", "a{b", "]", "}", "^", "~", "_", "\x7f"]
 LONGER = "abcdefghijklmnopqrstuvwxyz/abcdefghijklmnopqrstuvwxyz"
 
 
